@@ -184,7 +184,18 @@ func (g *Gen) drawIllegal(t *rapid.T, cl string) (Op, bool) {
 			return Op{}, false
 		}
 		r := pick(t, rels, "rel")
-		switch rapid.IntRange(0, 3).Draw(t, "how") {
+		switch rapid.IntRange(0, 4).Draw(t, "how") {
+		case 4: // Relations.ExchangeBatch whose result lacks the named relation, through the exclusive filter of one entity's set
+			e, ok := g.pickWith(t, func(s EntState) bool { return !s.Has(r) && s.Count() < n })
+			if !ok {
+				return Op{}, false
+			}
+			st := m.Ents[e].EntState
+			cands := minus(g.absent(st), rels)
+			if len(cands) == 0 {
+				return Op{}, false
+			}
+			return Op{K: OpRelExchB, F: &F{T: "excl", Ids: st.List()}, Add: []int{pick(t, cands, "add")}, C: r, T: g.pickTarget(t, e), Q: rapid.Bool().Draw(t, "q")}, true
 		case 3: // Batch.SetRelation / Relations.SetBatch through a filter that also matches entities without the relation
 			lacking, ok := g.pickWith(t, func(s EntState) bool { return !s.Has(r) })
 			if !ok {
@@ -244,7 +255,13 @@ func (g *Gen) drawIllegal(t *rapid.T, cl string) (Op, bool) {
 			}
 		}
 		c := pick(t, pl, "c")
-		switch rapid.IntRange(0, 2).Draw(t, "how") {
+		switch rapid.IntRange(0, 3).Draw(t, "how") {
+		case 3: // the batch form, through the exclusive filter of the entity's set
+			cands := minus(g.absent(st), rels)
+			if len(cands) == 0 {
+				return Op{}, false
+			}
+			return Op{K: OpRelExchB, F: &F{T: "excl", Ids: st.List()}, Add: []int{pick(t, cands, "add")}, C: c, T: g.pickTarget(t, e), Q: rapid.Bool().Draw(t, "q")}, true
 		case 0:
 			return Op{K: OpRelSet, E: e, C: c, T: g.pickTarget(t, e)}, true
 		case 1:
@@ -338,14 +355,30 @@ func (g *Gen) drawIllegal(t *rapid.T, cl string) (Op, bool) {
 
 	case IllCount:
 		cs := g.createComps(t)
-		return Op{K: OpBuildBatch, Add: cs, T: TNone, N: rapid.SampledFrom([]int{0, -1, -7}).Draw(t, "n"), Q: rapid.Bool().Draw(t, "q")}, true
+		op := Op{K: OpBuildBatch, Add: cs, T: TNone, N: rapid.SampledFrom([]int{0, -1, -7}).Draw(t, "n"), Q: rapid.Bool().Draw(t, "q")}
+		if len(cs) > 0 && rapid.Bool().Draw(t, "vals") {
+			// the builder with component values counts for itself
+			op.Vals = true
+			op.Tok = g.toks(t, len(cs))
+		}
+		return op, true
 
 	case IllNoComps:
 		if m.NAlive == 0 {
 			return Op{}, false
 		}
 		e := g.pickAlive(t, "e")
-		switch rapid.IntRange(0, 2).Draw(t, "how") {
+		switch rapid.IntRange(0, 3).Draw(t, "how") {
+		case 3: // Relations.ExchangeBatch without components but with a relation (Batch.SetRelation is the call for that)
+			if len(rels) == 0 {
+				return Op{}, false
+			}
+			r := pick(t, rels, "rel")
+			e2, ok := g.pickWith(t, func(s EntState) bool { return s.Has(r) })
+			if !ok {
+				return Op{}, false
+			}
+			return Op{K: OpRelExchB, F: &F{T: "mask", Ids: []int{r}}, C: r, T: g.pickTarget(t, e2), Q: rapid.Bool().Draw(t, "q")}, true
 		case 0:
 			return Op{K: OpAssign, E: e, T: TNone}, true
 		case 1:
